@@ -192,6 +192,8 @@ impl FeoxStore {
 
     #[inline]
     pub(super) fn publish_to_tree(&self, key: &[u8], record: Arc<Record>) {
+        #[cfg(feoxdb_verif)]
+        crate::verif::sched("tree_publish");
         self.tree
             .get(key)
             .expect("missing ordered index entry")
@@ -201,11 +203,15 @@ impl FeoxStore {
 
     #[inline]
     pub(super) fn insert_into_tree(&self, key: Vec<u8>, record: Arc<Record>) {
+        #[cfg(feoxdb_verif)]
+        crate::verif::sched("tree_insert");
         self.tree.insert(key, TreeSlot::new(record));
     }
 
     /// Remove from tree (for TTL cleaner)
     pub(crate) fn remove_from_tree(&self, key: &[u8]) {
+        #[cfg(feoxdb_verif)]
+        crate::verif::sched("tree_remove");
         self.tree.remove(key);
     }
 
